@@ -230,10 +230,11 @@ check_payload(const RPFrame *f)
 static int
 payload_plausible(RPFrame *f)
 {
-    size_t actualsize = f->payload.size;
-    if (BIT_ISSET(f->header.options, RP_OPT_WORD_SIZE_16)) {
-        actualsize /= 2;
-    }
+    /* Compare in octets: dividing the received size by the word size would
+     * let a stray octet behind a sixteen bit payload go unnoticed. */
+    const size_t actualsize = f->payload.size;
+    const uint64_t wordsize =
+        BIT_ISSET(f->header.options, RP_OPT_WORD_SIZE_16) ? 2u : 1u;
     switch (f->header.type) {
     case RP_FRAME_READ_REQUEST:
         /* FALLTHROUGH */
@@ -247,7 +248,7 @@ payload_plausible(RPFrame *f)
     case RP_FRAME_READ_RESPONSE:
         /* FALLTHROUGH */
     case RP_FRAME_WRITE_REQUEST:
-        return (f->header.blocksize == actualsize) ? 0 : -EFAULT;
+        return ((f->header.blocksize * wordsize) == actualsize) ? 0 : -EFAULT;
     default:
         return -EINVAL;
     }
